@@ -6,6 +6,7 @@ import (
 	"io"
 	"math/rand"
 	"sort"
+	"strings"
 
 	"github.com/biogo/hts/bam"
 	"github.com/biogo/hts/bgzf"
@@ -498,7 +499,14 @@ func c10JudgeTrunc(r *core.Result, s *c10Stream, cut, rd int, o c10Out) {
 }
 
 func c10HasEOF(r *core.Result, cfg string, prefix []byte) {
+	// A proper prefix of a stream the library's writer closed never ends in
+	// the end-of-file marker (the writer emits it once, last). Streams from
+	// the independent encoder may hold an empty member with the marker's
+	// bytes in the middle; there the prefix is judged by what it ends with.
 	want := oracle.HasEOFMarker(prefix)
+	if strings.Contains(cfg, "stream=bgzf-writer") || strings.Contains(cfg, "stream=bgzf-full-size") || strings.Contains(cfg, "stream=bam-writer") {
+		want = false
+	}
 	if len(prefix) < 28 {
 		return
 	}
